@@ -1,2 +1,6 @@
 #!/usr/bin/env bash
-exec "$(dirname "${BASH_SOURCE[0]}")/loglevel.sh" C09 "$@"
+# thorough tier: the quick workload again in the plain release profile (no overflow checks, no debug assertions:
+# what a user's release build does) and with logging off
+D="$(dirname "${BASH_SOURCE[0]}")"
+"$D/plain.sh" C09 "$@" || exit $?
+exec "$D/loglevel.sh" C09 "$@"
